@@ -11,7 +11,7 @@ from pymemcache.exceptions import MemcacheClientError
 
 PROPERTY = "C05"
 LEVEL = "exploration"
-RULE = ("history = client kind x configuration {prefix, default_noreply} x a per-step choice of spelling the keys as str or as bytes (the same item either way; multi-key answers are keyed by that call's spelling) x 1-25 steps over a universe of 3 keys: set/add/"
+RULE = ("history = client kind x configuration {prefix, default_noreply} x a per-step choice of spelling the keys as str or as bytes (the same item either way; multi-key answers are keyed by that call's spelling) x 1-25 steps over a universe of 3 keys (with unicode keys enabled, three more: a precomposed and a combining spelling of the same text - two different keys - and a compatibility character): set/add/"
         "replace/append/prepend (noreply unset/True/False, expiry in {0,-1,1,2,5,30 days, 30 days+1, now+3}), cas with "
         "a token that is the last gets result for the key, or bogus; get/gets/get_many/gets_many/gat/gats; touch; "
         "delete/delete_many; incr/decr with small and huge deltas on numeric, non-numeric and missing items; flush_all "
@@ -35,6 +35,8 @@ ASSUMPTIONS = [
 ]
 
 KEYS = ["k0", "k1", "k2"]
+# with unicode keys enabled: two DIFFERENT keys that are canonically equivalent as text (precomposed / combining), and a compatibility character
+UKEYS = ["caf\u00e9", "cafe\u0301", "\u212b"]
 DAY30 = 60 * 60 * 24 * 30
 
 
@@ -208,7 +210,9 @@ def run_history(case):
     kind, cfg, steps = case["kind"], case["cfg"], case["steps"]
     env = Env(cas_start=cfg.get("cas_start", 0))
     clock = env.clock
-    c = env.client(kind, key_prefix=cfg.get("key_prefix", b""), default_noreply=cfg.get("default_noreply", True))
+    c = env.client(kind, key_prefix=cfg.get("key_prefix", b""), default_noreply=cfg.get("default_noreply", True),
+                   **({"allow_unicode_keys": True} if cfg.get("allow_unicode_keys") else {}))
+    universe = KEYS + (UKEYS if cfg.get("allow_unicode_keys") else [])
     model = Model(clock, cfg.get("default_noreply", True))
     tokens = {}            # key -> (real token, model version)
     labels = set()
@@ -277,8 +281,8 @@ def run_history(case):
         if env.net.flags:
             raise Violation(["net-flags", op], "fake network flagged %r: %s" % (env.net.flags[:2], what))
     # final state
-    res = env.call(c.get_many, KEYS)
-    want = {k: model.live(k)[0] for k in KEYS if model.live(k) is not None}
+    res = env.call(c.get_many, universe)
+    want = {k: model.live(k)[0] for k in universe if model.live(k) is not None}
     if res[0] != "ok" or not _match(res[1], want, tokens):
         raise Violation(["final-state"], "final get_many returned %r, the map model holds %r after history %r (%s, cfg %r, per-step key spelling %r)"
                         % (res, want, desc_hist, kind, cfg, case.get("spell")))
@@ -348,6 +352,17 @@ def exhaustive_cases(tier, seed):
         for spell in ([0, 1, 0], [1, 0, 1]):
             yield {"kind": ("client", "pooled", "hash", "hash-pooled")[(sum(seq) + spell[0]) % 4], "cfg": {"key_prefix": b"" if sum(seq) % 2 else b"s:", "default_noreply": False},
                    "steps": [sub[0]] + [sub[i] for i in seq], "spell": [0] + spell}
+    # two keys that are equivalent as Unicode text but different as keys (and their bytes spellings): every sequence of
+    # 3 operations over both, unicode keys enabled
+    tw = []
+    for k in UKEYS[:2]:
+        tw += [{"op": "set", "key": k, "value": b"v-" + k.encode("utf-8")[-2:], "noreply": False}, {"op": "get", "key": k}, {"op": "delete", "key": k, "noreply": False},
+               {"op": "add", "key": k, "value": b"a", "noreply": False}]
+    tw += [{"op": "get_many", "keys": UKEYS[:2]}, {"op": "gets_many", "keys": UKEYS[::-1]}]
+    for seq in itertools.product(range(len(tw)), repeat=3):
+        for spell in (None, [0, 1, 0], [1, 1, 0]):
+            yield {"kind": ("client", "pooled", "hash", "hash-pooled")[sum(seq) % 4], "cfg": {"key_prefix": b"" if sum(seq) % 2 else b"u:", "default_noreply": False, "allow_unicode_keys": True},
+                   "steps": [tw[i] for i in seq], "spell": spell}
     if tier == "thorough":
         # every sequence of length 4 over the full 25-instance alphabet (390 625)
         for seq in itertools.product(range(len(ALPHA)), repeat=4):
@@ -366,7 +381,11 @@ def minimise(case, still_fails):
 
 
 def history_strategy(tier):
-    key = st.sampled_from(KEYS)
+    return st.booleans().flatmap(lambda uni: _history_strategy(tier, uni))
+
+
+def _history_strategy(tier, uni):
+    key = st.sampled_from(KEYS + UKEYS) if uni else st.sampled_from(KEYS)
     value = st.sampled_from([b"v", b"", b"0", b"5", b"41", b"18446744073709551615", b"abc", b"12x", b"a\r\nb", b"END",
                              b"line\n", b"x\r", b"\r\n", b"\n", b"two\r\n\r\n"])
     noreply = st.sampled_from([None, None, True, False])
@@ -397,7 +416,7 @@ def history_strategy(tier):
         st.fixed_dictionaries({"op": st.just("delitem"), "key": key}),
         st.fixed_dictionaries({"op": st.just("advance"), "seconds": st.sampled_from([1, 1, 2, 3, 5, 10, DAY30])}))
     step = st.one_of(store, store, cas, read, read, arith, other)
-    cfg = st.fixed_dictionaries({"key_prefix": st.sampled_from([b"", b"", b"ns:", "sp."]), "default_noreply": st.booleans(),
+    cfg = st.fixed_dictionaries({"key_prefix": st.sampled_from([b"", b"", b"ns:", "sp."]), "default_noreply": st.booleans(), "allow_unicode_keys": st.just(uni),
                                  "cas_start": st.sampled_from([0, 999999990, 2 ** 32 + 5, 2 ** 63 + 11, 2 ** 64 - 500])})
     return st.fixed_dictionaries({"kind": st.sampled_from(["client", "pooled", "hash", "hash-pooled"]), "cfg": cfg,
                                   "steps": st.lists(step, min_size=1, max_size=25),
